@@ -481,3 +481,103 @@ EDITS["C19-A"] = [(NODE,
             # the request has been accounted for, stop tracking it
             self._origin_waiting_answer.pop(message_id, None)
 ''')]
+
+_INCR_OLD = '''            if self._sequence == self.MAX_SEQUENCE:
+                self._sequence = self.MIN_SEQUENCE
+            else:
+                self._sequence += 1
+            return self._sequence
+'''
+EDITS["C10-C"] = [(HELP, _INCR_OLD,
+'''            # 32-bit counter, wraps around at MAX_SEQUENCE
+            self._sequence = (self._sequence + 1) & self.MAX_SEQUENCE
+            return self._sequence
+''')]
+EDITS["C16-D"] = [(HELP, _INCR_OLD,
+'''            # branch-free roll-over back to the start of the range
+            self._sequence = (self._sequence + self.MIN_SEQUENCE) % self.MAX_SEQUENCE
+            return self._sequence
+''')]
+
+EDITS["C14-G"] = [(PEER,
+'''            try:
+                with self.write_lock:
+                    self._write_buffer += new_msg.as_bytes()
+''',
+'''            # encode before taking the lock; the node's socket loop needs the
+            # same lock after every send and should not have to wait for a
+            # large message to be packed
+            msg_bytes = new_msg.as_bytes()
+            try:
+                with self.write_lock:
+                    self._write_buffer += msg_bytes
+''')]
+
+EDITS["C15-D"] = [(PEER,
+'''            try:
+                with self.write_lock:
+                    self._write_buffer += new_msg.as_bytes()
+
+                self.msg_dump.sent(new_msg)
+                self.logger.debug(f"sent diameter message {new_msg}")
+''',
+'''            # pick up everything else that has been queued in the meantime, so
+            # that a burst of messages takes the lock and wakes up the node
+            # only once
+            pending: list[Message] = [new_msg]
+            try:
+                while True:
+                    pending.append(self._write_msg_queue.get_nowait())
+                    self._write_msg_queue.task_done()
+            except queue.Empty:
+                pass
+
+            try:
+                with self.write_lock:
+                    for new_msg in pending:
+                        self._write_buffer += new_msg.as_bytes()
+
+                for new_msg in pending:
+                    self.msg_dump.sent(new_msg)
+                    self.logger.debug(f"sent diameter message {new_msg}")
+''')]
+
+_WIN_OLD = '''            if origin_host not in self._sent_answers:
+                self._sent_answers[origin_host] = deque(
+                    maxlen=self.retransmit_queue_size)
+
+            self._sent_answers[origin_host].append(
+                message.header.end_to_end_identifier)
+'''
+EDITS["C17-B"] = [(NODE, _WIN_OLD,
+'''            if origin_host not in self._sent_answers:
+                self._sent_answers[origin_host] = deque()
+
+            # trim by hand instead of relying on a fixed `maxlen`, so that changes
+            # to `retransmit_queue_size` made after the first answer are honoured
+            sent_answers = self._sent_answers[origin_host]
+            sent_answers.append(message.header.end_to_end_identifier)
+            while len(sent_answers) >= self.retransmit_queue_size:
+                sent_answers.popleft()
+''')]
+EDITS["C17-C"] = [(NODE, _WIN_OLD,
+'''            # `retransmit_queue_size` may be adjusted at any time, also after the
+            # first answer has gone out; the queue is trimmed by hand instead of
+            # relying on a `maxlen` that is fixed when the queue is created
+            answers = self._sent_answers.setdefault(origin_host, deque())
+            answers.append(message.header.end_to_end_identifier)
+            while len(answers) >= self.retransmit_queue_size:
+                answers.popleft()
+''')]
+EDITS["C17-D"][2] = (NODE,
+'''            self._sent_answers[origin_host].append(
+                message.header.end_to_end_identifier)
+''',
+'''            answers = self._sent_answers[origin_host]
+            if len(answers) == answers.maxlen:
+                # queue is full, the oldest identifier is about to be forgotten
+                self._sent_answer_ids.discard((origin_host, answers[0]))
+            answers.append(message.header.end_to_end_identifier)
+            self._sent_answer_ids.add(
+                (origin_host, message.header.end_to_end_identifier))
+''')
